@@ -839,7 +839,7 @@ def reach(roots, stop, depth=7):
     return seen, keep
 
 
-def aliasing(server, conns):
+def aliasing(server, conns, cache=None):
     """The aliasing oracle: no mutable object reachable from one session's Connection is reachable from another's, except
     the DECLARED shared ones - the server, its server-wide throttle, the user manager with the user objects and their
     counters, the port pool, the backend nursery with its shared state, and the per-user throttle for sessions of the SAME
@@ -848,11 +848,20 @@ def aliasing(server, conns):
     state = getattr(server.path_io_factory, "state", None)
     if state is not None and not isinstance(state, IMMUTABLE):
         stop.add(id(state))  # the ONE backend state per server (declared shared; for MemoryPathIO the whole tree): not entered
-    decl, k0 = reach([("server.throttle", server.throttle), ("server.user_manager", server.user_manager), ("server.path_io_factory", server.path_io_factory),
-                      ("server.available_connections", server.available_connections), ("server.available_data_ports", server.available_data_ports)], stop)
-    per_user = {}
-    for u, t in list(server.throttle_per_user.items()):
-        per_user[id(u)] = reach([("server.throttle_per_user[u]", t)], stop)[0]
+    cache = {} if cache is None else cache
+    sig = (id(server), len(server.throttle_per_user), id(state))
+    if cache.get("sig") != sig:
+        # the declared shared structures: walked once per run and again whenever a per-user throttle is added (the walked objects
+        # are kept alive in the cache so that their ids stay theirs)
+        decl, k0 = reach([("server.throttle", server.throttle), ("server.user_manager", server.user_manager), ("server.path_io_factory", server.path_io_factory),
+                          ("server.available_connections", server.available_connections), ("server.available_data_ports", server.available_data_ports)], stop)
+        per_user, keep = {}, [k0]
+        for u, t in list(server.throttle_per_user.items()):
+            r, k1 = reach([("server.throttle_per_user[u]", t)], stop)
+            per_user[id(u)] = r
+            keep.append(k1)
+        cache.update(sig=sig, decl=decl, per_user=per_user, keep=keep)
+    decl, per_user = cache["decl"], cache["per_user"]
     rs = []
     for c in conns:
         rs.append(None if c is None else reach([("connection", c)], stop))
@@ -995,7 +1004,7 @@ def run_impl(n, schedule, cfg, align=None):
                 ss.append(s)
             steps = []
             writes = []
-            alias = None
+            alias, alias_cache = None, {}
             fp = server_fingerprint(server)
             starts = [[] for _ in range(n)]
             for i, atom in schedule:
@@ -1012,7 +1021,7 @@ def run_impl(n, schedule, cfg, align=None):
                 await ss[i].do(atom)
                 steps.append((before, [s.xprobe() for s in ss]))
                 if alias is None:
-                    hit = aliasing(server, [(s.conn() if s.started and not s.dropped else None) for s in ss])
+                    hit = aliasing(server, [(s.conn() if s.started and not s.dropped else None) for s in ss], alias_cache)
                     if hit is not None:
                         alias = (len(steps) - 1, i, atom.get("verb", atom["k"])) + hit
                 fp2 = server_fingerprint(server)
